@@ -195,13 +195,15 @@ static void const_data(int seed, u8 out[64]) {
 // Helper callees (C functions called from generated code). Every call is logged.
 // ---------------------------------------------------------------------------------------------------------------
 
-struct CallRec { u32 callee; u32 n; u64 a[12]; };
+static const int MAXARGS = 26;   // up to 14 integer + 12 floating-point arguments
+struct CallRec { u32 callee; u32 n; u64 a[MAXARGS]; };
 
 enum : u8 { AK_U8 = 0, AK_U16, AK_U32, AK_U64, AK_F64 };
 enum : u8 { RK_VOID = 0, RK_U32, RK_U64, RK_F64 };
-struct CalleeSig { u8 n; u8 kind[12]; u8 ret; };
+struct CalleeSig { u8 n; u8 kind[MAXARGS]; u8 ret; };
 
-static const int NCALLEE = 24;
+static const int NCALLEE_OLD = 24;
+static const int NCALLEE = 34;
 static CalleeSig g_sigs[NCALLEE];
 
 static CallRec* g_log = nullptr;
@@ -213,7 +215,7 @@ static bool g_trash_avx = false;
 static void init_callee_sigs() {
   // fixed table (independent of the seed so that witnesses are stable)
   Rng r(0xC05C05);
-  for (int i = 0; i < NCALLEE; i++) {
+  for (int i = 0; i < NCALLEE_OLD; i++) {
     CalleeSig& s = g_sigs[i];
     int n;
     if (i == 0) n = 0;
@@ -235,6 +237,29 @@ static void init_callee_sigs() {
     }
     s.ret = (u8)(i % 5 == 4 ? RK_VOID : (i % 3 == 0 ? RK_F64 : (i % 3 == 1 ? RK_U64 : RK_U32)));
   }
+  // callees with many arguments (0..14 integer, 0..12 floating point, interleaved): between 0 and 96 bytes of stack arguments on SysV x86-64
+  static const u8 big[NCALLEE - NCALLEE_OLD][2] = { {14, 0}, {14, 12}, {7, 9}, {10, 2}, {0, 12}, {9, 0}, {3, 10}, {14, 4}, {8, 8}, {12, 11} };
+  Rng q(0xB16CA11);
+  for (int i = NCALLEE_OLD; i < NCALLEE; i++) {
+    CalleeSig& s = g_sigs[i];
+    int ni = big[i - NCALLEE_OLD][0], nd = big[i - NCALLEE_OLD][1];
+    s.n = (u8)(ni + nd);
+    int k = 0;
+    while (ni + nd > 0) {
+      bool pick_d = nd > 0 && (ni == 0 || q.below((u64)(ni + nd)) < (u64)nd);
+      if (pick_d) { s.kind[k++] = AK_F64; nd--; }
+      else { s.kind[k++] = (u8)(i % 3 == 2 ? q.below(4) : (q.chance(1, 2) ? AK_U64 : AK_U32)); ni--; }
+    }
+    s.ret = (u8)(i % 4 == 0 ? RK_VOID : (i % 4 == 1 ? RK_U64 : (i % 4 == 2 ? RK_F64 : RK_U32)));
+  }
+}
+
+// bytes of stack arguments of a callee under the SysV x86-64 convention
+static int callee_stack_bytes(int id) {
+  const CalleeSig& s = g_sigs[id];
+  int ni = 0, nd = 0;
+  for (int k = 0; k < s.n; k++) { if (s.kind[k] == AK_F64) nd++; else ni++; }
+  return 8 * ((ni > 6 ? ni - 6 : 0) + (nd > 8 ? nd - 8 : 0));
 }
 
 static inline u64 callee_result(u32 id, u32 n, const u64* a) {
@@ -290,7 +315,7 @@ static inline double bitsd(u64 x) { double d; memcpy(&d, &x, 8); return d; }
 // registers, 8 vector registers and 12 stack slots receives every mixed signature of up to 12 arguments.
 static NOSAN u64 callee_common(u32 id, const u64* ir, const double* dr, const u64* st) {
   const CalleeSig& sg = g_sigs[id];
-  u64 a[12];
+  u64 a[MAXARGS];
   int ni = 0, nd = 0, ns = 0;
   for (int k = 0; k < sg.n; k++) {
     u64 v;
@@ -313,7 +338,7 @@ static NOSAN u64 callee_common(u32 id, const u64* ir, const double* dr, const u6
     CallRec& r = g_log[n];
     r.callee = id;
     r.n = sg.n;
-    for (int k = 0; k < 12; k++) r.a[k] = k < sg.n ? a[k] : 0;
+    for (int k = 0; k < MAXARGS; k++) r.a[k] = k < sg.n ? a[k] : 0;
   }
   *g_logn = n + 1;
   return callee_result(id, sg.n, a);
@@ -1889,7 +1914,8 @@ struct Gen {
     Op o; o.opc = O_CALL;
     bool haveD = pick(KIND_D, 8) >= 0;
     for (int tries = 0; tries < 8; tries++) {
-      int id = (int)r.below(NCALLEE);
+      bool big_bias = !strncmp(pf.name, "calls", 5) || !strncmp(pf.name, "x86-calls", 9) || !strncmp(pf.name, "a64-calls", 9);
+      int id = (big_bias && r.chance(1, 2)) ? NCALLEE_OLD + (int)r.below(NCALLEE - NCALLEE_OLD) : (int)r.below(NCALLEE);
       const CalleeSig& sg = g_sigs[id];
       bool ok = true;
       o.args.clear();
@@ -2684,7 +2710,7 @@ struct X86Emitter {
 
       case O_CALL: {
         const CalleeSig& sg = g_sigs[o.imm];
-        FuncSignature sig(CallConvId::kCDecl);
+        FuncSignature sig((!is64 && (o.imm & 1)) ? CallConvId::kStdCall : CallConvId::kCDecl);
         sig.set_ret(sg.ret == RK_VOID ? TypeId::kVoid : sg.ret == RK_U32 ? TypeId::kUInt32 : sg.ret == RK_U64 ? TypeId::kUInt64 : TypeId::kFloat64);
         static const TypeId tids[] = { TypeId::kUInt8, TypeId::kUInt16, TypeId::kUInt32, TypeId::kUInt64, TypeId::kFloat64 };
         for (int k = 0; k < sg.n; k++) sig.add_arg(tids[sg.kind[k]]);
@@ -2911,7 +2937,7 @@ static void exec_native_batch(std::vector<ExecItem>& items) {
         g_shm->progress_item = (u32)p;
         g_shm->fn_base = (u64)(uintptr_t)it.fn;
         // CPU-time limit per program
-        struct itimerval tv; memset(&tv, 0, sizeof tv); tv.it_value.tv_sec = 4;
+        struct itimerval tv; memset(&tv, 0, sizeof tv); tv.it_value.tv_sec = 2;
         setitimer(ITIMER_PROF, &tv, nullptr);
         const Program& P = *it.P;
         bool retd = P.retval >= 0 && P.vals[P.retval].kind == KIND_D;
@@ -3126,7 +3152,7 @@ static Verdict compare_results(const Program& P, const std::vector<RunInput>& in
     for (size_t c = 0; c < nc; c++) {
       const CallRec& x = e.calls[c]; const CallRec& y = s.calls[c];
       if (x.callee != y.callee || memcmp(x.a, y.a, sizeof x.a) != 0) {
-        int ai = 0; for (int i = 0; i < 12; i++) if (x.a[i] != y.a[i]) { ai = i; break; }
+        int ai = 0; for (int i = 0; i < MAXARGS; i++) if (x.a[i] != y.a[i]) { ai = i; break; }
         snprintf(b, sizeof b, "helper call #%zu differs on input %zu: expected callee %u arg%d=%016llx, got callee %u arg%d=%016llx", c, k, x.callee, ai,
                  (unsigned long long)x.a[ai], y.callee, ai, (unsigned long long)y.a[ai]);
         v.kind = 1; v.input = (int)k; v.what = b; return v;
@@ -3250,6 +3276,7 @@ static const Profile kProfilesX64[] = {
   { "avx512",      ARCH_X64, MODE_AVX512, 4, 12,   10, 60, 3, 16,  0, 3,   5, 16,  3, 1, 1, 2, 8, 8, 1, 1,    2, 10,  1, 30 },
   { "calls",       ARCH_X64, MODE_AVX,    8, 30,   2, 12,  0, 0,   2, 10,  4, 12,  5, 1, 1, 2, 3, 0, 3, 8,    2, 8,   1, 30 },
   { "calls512",    ARCH_X64, MODE_AVX512, 8, 24,   4, 40,  2, 10,  2, 10,  4, 12,  4, 1, 1, 1, 3, 3, 2, 8,    2, 8,   1, 30 },
+  { "calls-stack", ARCH_X64, MODE_AVX,    20, 44,  0, 6,   0, 0,   6, 14,  3, 9,   4, 1, 1, 4, 1, 0, 2, 10,   2, 7,   1, 100 },
   { "jumptable",   ARCH_X64, MODE_SSE,    6, 30,   0, 0,   0, 0,   0, 0,   3, 10,  8, 2, 2, 2, 0, 0, 0, 1,    4, 14,  10, 20 },
   { "huge",        ARCH_X64, MODE_AVX512, 60, 110, 30, 60, 4, 12,  4, 16,  4, 10,  8, 2, 2, 3, 5, 3, 1, 1,    3, 8,   1, 30 },
   { "mixed",       ARCH_X64, MODE_AVX512, 10, 30,  6, 30,  2, 9,   1, 6,   5, 14,  6, 3, 3, 3, 5, 4, 1, 2,    3, 12,  2, 40 },
@@ -3270,7 +3297,7 @@ static const Profile kProfilesDbg[] = {
   { "dbg-cfg",     ARCH_X64, MODE_SSE,    3, 6,  0, 0,  0, 0,  0, 0,  0, 2,  1, 0, 0, 0, 0, 0, 0, 0,  3, 10, 3, 0 },
 };
 // relative frequency of the x64 profiles in a random batch
-static const int kProfileFreqX64[] = { 2, 3, 3, 3, 3, 2, 2, 3, 3, 2, 2, 1, 3 };
+static const int kProfileFreqX64[] = { 2, 3, 3, 3, 3, 2, 2, 3, 3, 2, 3, 2, 1, 3 };
 
 static const Profile kProfilesShape[] = {
   { "shape-tiny",     ARCH_X64, MODE_SSE, 2, 5,   0, 0, 0, 0, 0, 0,  1, 5,  10, 3, 3, 3, 0, 0, 0, 1,  0, 0, 0, 20 },
@@ -4110,6 +4137,7 @@ static const ProbeDef kProbes[] = {
   { "a64-tbl-register-list", AV_A64_TBL_MULTI, false, "AArch64 tbl/tbx with a table of 2..4 registers: the allocator does not know that the table registers must be consecutive" },
   { "vpternlog-merge-masked", AV_TERN_MASKED, true, "vpternlogd v{k},v,v,0xFF / 0x00 under merge-masking is treated as write-only although the masked-off lanes keep the old value" },
   { "same-reg-hint-different-views", AV_HINT_VIEWS, false, "xchg/xor between AL and AH views of one virtual register gets the same-register hint of xchg r,r / xor r,r" },
+  { "call-stack-area-max-over-invokes", 0, false, "the frame's call-stack area must cover the largest stack-argument block of ALL invokes, not the one of the last invoke: a big call followed by a small one overwrites spill slots / new_stack() memory" },
   { "unreachable-predecessor", 0x80000000u, false, "an unreachable block that flows into a reachable loop crashes the liveness analysis" },
 };
 static const int kNProbes = sizeof(kProbes) / sizeof(kProbes[0]);
@@ -4217,6 +4245,28 @@ static Program build_probe(const std::string& name) {
     Op q; q.opc = O_VALU; q.sub = VA_PAND; q.w = 16; q.d = y2; q.a = y2; q.s = SR(y2); b.ops().push_back(q);
     b.call0();
     b.finish(-1);
+    return b.P;
+  }
+  if (name == "call-stack-area-max-over-invokes") {
+    ProbeBuilder b;
+    b.P.use_stack = true;
+    for (int off = 0; off < STK_SIZE; off += 8) {
+      Op st; st.opc = O_STORE; st.w = 8; st.s = SI(0x1111 * (off + 1)); MemRef m; m.space = M_STK; m.off = off; st.s2 = SM(m);
+      b.P.blocks[0].ops.push_back(st);
+    }
+    std::vector<int> v;
+    for (int i = 0; i < 24; i++) { v.push_back(b.val(KIND_G, 8)); b.load(v.back(), 8 * i); }
+    int t = b.val(KIND_G, 8), t2 = b.val(KIND_G, 8);
+    { Op st; st.opc = O_STORE; st.w = 8; st.s = SR(v[3]); MemRef m; m.space = M_STK; m.off = 8; st.s2 = SM(m); b.ops().push_back(st); }
+    { Op st; st.opc = O_STORE; st.w = 8; st.s = SR(v[5]); MemRef m; m.space = M_STK; m.off = 72; st.s2 = SM(m); b.ops().push_back(st); }
+    // big call first: 14 integer arguments = 64 bytes of stack arguments (SysV x86-64) ...
+    { Op o; o.opc = O_CALL; o.imm = NCALLEE_OLD; for (int k = 0; k < g_sigs[NCALLEE_OLD].n; k++) o.args.push_back(SR(v[k])); b.ops().push_back(o); }
+    // ... another big one with 12 doubles passed as integer bit patterns is not needed; the small call comes last
+    b.call0();
+    { Op o; o.opc = O_MOV; o.w = 8; o.d = t; MemRef m; m.space = M_STK; m.off = 8; o.s = SM(m); b.ops().push_back(o); }
+    { Op o; o.opc = O_MOV; o.w = 8; o.d = t2; MemRef m; m.space = M_STK; m.off = 72; o.s = SM(m); b.ops().push_back(o); }
+    for (int i = 0; i < 24; i++) { Op o; o.opc = O_ALU; o.sub = A_ADD; o.w = 8; o.d = v[i]; o.s = SI(i + 1); b.ops().push_back(o); }
+    b.finish(t);
     return b.P;
   }
   if (name == "vpternlog-merge-masked") {
@@ -4359,6 +4409,7 @@ int main(int argc, char** argv) {
     struct Pending { Program P; std::vector<RunInput> inputs; std::vector<RunResult> ref; Compiled comp; Verdict v; u64 idx; u64 ph; };
     std::vector<Pending*> pending;
     std::map<std::string, int> shrunk_per_key;
+    int total_shrinks = 0;
     int batch = (int)args.u64("batch", 24);
     if (batch > BATCH_MAX) batch = BATCH_MAX;
     if (batch * ninputs > NINPUTS_MAX * BATCH_MAX) batch = NINPUTS_MAX * BATCH_MAX / ninputs;
@@ -4396,7 +4447,7 @@ int main(int argc, char** argv) {
           static const char* kinds0[] = { "ok", "miscompile", "crash", "hang", "finalize-error", "harness" };
           std::string k0 = std::string(kinds0[v.kind]) + ":" + P.profile;
           // shrinking is expensive: only the first two failures of a kind/profile per process are shrunk
-          if (shrink_budget > 0 && shrunk_per_key[k0]++ < 2) S = shrink_program(P, fin, v.kind, shrink_budget, attempts);
+          if (shrink_budget > 0 && v.kind != 3 /* every attempt on a hang costs the CPU-time limit */ && shrunk_per_key[k0]++ < 2 && total_shrinks++ < 3) S = shrink_program(P, fin, v.kind, shrink_budget, attempts);
           Compiled c2;
           std::vector<RunInput> one(1, fin);
           Verdict v2 = check_program(S, one, c2, nullptr, false);
@@ -4467,6 +4518,8 @@ int main(int argc, char** argv) {
       }
       pending.push_back(pd);
       if ((int)pending.size() >= batch) flush();
+      // a tree this broken does not need more witnesses from this shard
+      if (viols.size() >= 12) { ctr.ops_by_kind["shard-stopped-after-12-violations"]++; break; }
     }
     flush();
   }
